@@ -181,7 +181,7 @@ func (s *srvConn) openStream(cfg *negCfg, r *negRec, step string) bool {
 			s.streamID = fmt.Sprintf("sid-%d-%s", s.k, step)
 		}
 		// the features that follow the header may be replaced by some other well-formed element
-		f := cfg.pick(step+"-features", "features", "message-instead", "sasl-success-instead", "ack-request-instead", "iq-instead")
+		f := cfg.pick(step+"-features", "features", "message-instead", "sasl-success-instead", "ack-request-instead", "iq-instead", "features-with-undefined-entity")
 		if f != "features" {
 			r.answer(step+"-features", f, false)
 		}
@@ -197,6 +197,10 @@ func (s *srvConn) openStream(cfg *negCfg, r *negRec, step string) bool {
 			s.send(s.header("jabber:client") + "<r xmlns='urn:xmpp:sm:3'/>")
 		case "iq-instead":
 			s.send(s.header("jabber:client") + "<iq xmlns='jabber:client' type='result' id='1'/>")
+		case "features-with-undefined-entity":
+			// the right features, not well-formed: &nbsp; is not defined in XML
+			f := s.features(cfg, r)
+			s.send(s.header("jabber:client") + strings.Replace(f, ">", ">&nbsp;", 1))
 		}
 		s.drainAfterFailureLenient(r)
 		return false
@@ -323,7 +327,9 @@ func (s *srvConn) serve(cfg *negCfg, r *negRec) {
 			case "unexpected":
 				s.send("<foo xmlns='urn:unexpected'/>")
 			case "malformed":
-				s.send(malformedXML)
+				// not XML, but close to the positive answer (an unquoted attribute value): a decoder that is
+				// lenient about well-formedness would take it for <proceed/>
+				s.send("<proceed xmlns=" + nsTLS + "/>")
 			case "close":
 				s.close()
 				return
@@ -377,7 +383,9 @@ func (s *srvConn) serve(cfg *negCfg, r *negRec) {
 			case "unexpected":
 				s.send("<message xmlns='jabber:client'><body>x</body></message>")
 			case "malformed":
-				s.send(malformedXML)
+				s.send("<success xmlns=" + nsSASL + "/>") // unquoted attribute value
+				s.drainAfterFailureLenient(r)
+				return
 			case "truncated":
 				s.send("<success xmlns='urn:ietf:params:xml:ns:xmpp-sa")
 				s.close()
@@ -458,7 +466,10 @@ func (s *srvConn) serve(cfg *negCfg, r *negRec) {
 			case "other-stanza":
 				s.send("<message xmlns='jabber:client'><body>x</body></message>")
 			case "malformed":
-				s.send(malformedXML)
+				// the result, with a <jid> that is never closed
+				s.send(fmt.Sprintf("<iq type='result' id='%s'><bind xmlns='%s'><jid>user@example.org/x</bind></iq>", id, nsBind))
+				s.drainAfterFailureLenient(r)
+				return
 			case "close":
 				s.close()
 				return
@@ -468,6 +479,9 @@ func (s *srvConn) serve(cfg *negCfg, r *negRec) {
 		case u.name == "iq" && strings.Contains(u.raw, nsSess):
 			if r.phase != "bound" || r.SessionSeen > 0 {
 				r.Order = append(r.Order, "session in phase "+r.phase)
+			}
+			if cfg.session == "absent" {
+				r.Order = append(r.Order, "session requested although this stream's features do not offer it")
 			}
 			r.SessionSeen++
 			id := attr(u.raw, "id")
@@ -485,7 +499,7 @@ func (s *srvConn) serve(cfg *negCfg, r *negRec) {
 			case "error":
 				s.send(fmt.Sprintf("<iq type='error' id='%s'><error type='wait'><internal-server-error xmlns='urn:ietf:params:xml:ns:xmpp-stanzas'/></error></iq>", id))
 			case "malformed":
-				s.send(malformedXML)
+				s.send(fmt.Sprintf("<iq type=result id='%s'/>", id)) // unquoted attribute value
 			case "close":
 				s.close()
 				return
@@ -507,8 +521,11 @@ func (s *srvConn) serve(cfg *negCfg, r *negRec) {
 			if cfg.session == "mandatory" && r.SessionSeen == 0 {
 				r.Order = append(r.Order, "enable before the mandatory session request")
 			}
+			if !cfg.sm {
+				r.Order = append(r.Order, "enable requested although this stream's features do not offer stream management")
+			}
 			r.EnableSeen++
-			a := cfg.pick("enable", "enabled-resume-true", "enabled-resume-false", "enabled-no-resume", "failed", "failed-no-condition", "unexpected", "close")
+			a := cfg.pick("enable", "enabled-resume-true", "enabled-resume-false", "enabled-no-resume", "failed", "failed-no-condition", "unexpected", "close", "malformed")
 			ok := strings.HasPrefix(a, "enabled")
 			r.answer("enable", a, ok)
 			r.EnableAnswer = a
@@ -529,6 +546,9 @@ func (s *srvConn) serve(cfg *negCfg, r *negRec) {
 				s.send(fmt.Sprintf("<failed xmlns='%s'/>", nsSM))
 			case "unexpected":
 				s.send("<message xmlns='jabber:client'><body>x</body></message>")
+			case "malformed":
+				// the positive answer with an end tag that does not match
+				s.send(fmt.Sprintf("<enabled xmlns='%s' id='%s' resume='true'></enable>", nsSM, id))
 			case "close":
 				s.close()
 				return
